@@ -291,8 +291,10 @@ def one(t):
             if any(r.match(p) for r in excl):
                 return False
             return True
+        # a link is out of reach when an --exclude pattern prunes one of its ancestor directories (patterns ending in /**); a pattern
+        # that merely matches the link's own name (**/*.log) does not stop the walk from following it
         case = {"id": k, "entries": [{"parent": e["parent"], "kind": e["kind"], "hidden": e["name"].startswith("."), "ignBy": tree.ignored_by(e), "sel": sel(e) if e["kind"] in ("file", "link") else False,
-                                      "target": e["target"], "dev": e["dev"], "blocked": e["kind"] == "link" and any(r.match(e["path"]) for r in excl)} for e in tree.entries],
+                                      "target": e["target"], "dev": e["dev"], "blocked": e["kind"] == "link" and any(r.match(e["path"]) for r, pat in zip(excl, o["excludes"]) if pat.endswith("/**"))} for e in tree.entries],
                 "roots": [r["id"] for r in roots], "opts": {"depth": -1 if o["depth"] is None else o["depth"], "hidden": o["hidden"], "noIgnore": o["noIgnore"], "follow": o["follow"],
                                                               "report": o["report"], "oneFs": o["oneFs"]}}
         env = lib.base_env(tree.work)
@@ -338,6 +340,9 @@ def main(tier):
     ok = [r for r in results if r["rc"] == 0]
     expected, res = tlc_eval([r["case"] for r in ok])
     chk.add_tlc("Eval_Walk(Selected)", res)
+    # the walk as a concurrent procedure: every schedule, on hand-written trees and on the small trees of the runs above
+    import wconc
+    chk.cov["walkconc_observed_trees"] = wconc.run(chk, [r["case"] for r in ok], 16 if thorough else 14)
     nontrivial = set()
     for r in results:
         o = r["opts"]
